@@ -250,6 +250,12 @@ class BuiltinsMixin:
                     raise Unsupported(f"isinstance({a.ty}, {nm})")
             else:
                 sv = self.ev(n, fr)
+                if not (sv.meta and sv.meta[0] == "class") and getattr(n, "spec_class_name", False):
+                    # class named in a spec string (is_instance(x, 'Cls')): resolved through the repository index, not through the
+                    # imports of the module the function lives in
+                    rc = self.repo.resolve_class(nm, fr.module if fr else None)
+                    if rc is not None:
+                        sv = SV(None, Ty("type"), ("class", rc))
                 if not (sv.meta and sv.meta[0] == "class"):
                     if sv.meta and sv.meta[0] == "ext":
                         alts.append(self.uf_b("isinstance_" + sv.meta[1].replace(".", "_"), t))
